@@ -257,6 +257,102 @@ def part_c(rows):
   return n, bad
 
 
+def part_d(text):
+  """histories of RecordView.tla (adds to the six lists, header-field changes, reads) on a real TestRecord: what
+  every read returns is compared with the rendering of a record rebuilt from scratch from the same objects"""
+  sys.argv = sys.argv[:1]
+  import openhtf as htf
+  from openhtf.core import diagnoses_lib, phase_branches, phase_executor, test_record
+  from openhtf.util import logs
+  from vf import build
+  hists = tlaval.parse_many(text, 'HIST')
+  bad = []
+  n = 0
+  ph = htf.PhaseOptions(name='ph')(lambda test: None)
+  cond = phase_branches.DiagnosisCondition.on_all(build.R.a)
+  DUT = {0: None, 1: 'FIXTURE-SLOT', 2: 'SN-0042'}
+  OC = {0: None, 1: test_record.Outcome.PASS, 2: test_record.Outcome.FAIL}
+  END = {0: None, 1: 1000, 2: 2000}
+  MARG = {0: None, 1: True, 2: False}
+
+  def item(l, k):
+    if l == 'phases':
+      r = test_record.PhaseRecord.from_descriptor(ph)
+      r.start_time_millis, r.end_time_millis = k, k + 1
+      return r
+    if l == 'subtests':
+      return test_record.SubtestRecord(name='sub%d' % k, start_time_millis=k, end_time_millis=k + 1,
+                                       outcome=test_record.SubtestOutcome.PASS)
+    if l == 'branches':
+      return test_record.BranchRecord(name='br%d' % k, diag_condition=cond, branch_taken=bool(k % 2), evaluated_millis=k)
+    if l == 'checkpoints':
+      return test_record.CheckpointRecord(name='ck%d' % k, action=htf.PhaseResult.STOP, conditional=cond, subtest_name=None,
+                                          result=phase_executor.PhaseExecutionOutcome(htf.PhaseResult.CONTINUE),
+                                          evaluated_millis=k)
+    if l == 'diagnoses':
+      return diagnoses_lib.Diagnosis(build.R.a, 'diag %d' % k)
+    return logs.LogRecord(level=20, logger_name='openhtf.x', source='f.py', lineno=k, timestamp_millis=k, message='msg %d' % k)
+  ADD = dict(phases='add_phase_record', subtests='add_subtest_record', branches='add_branch_record',
+             checkpoints='add_checkpoint_record', diagnoses='add_diagnosis', log_records='add_log_record')
+
+  def fresh():
+    return test_record.TestRecord(dut_id=None, station_id='st', code_info=test_record.CodeInfo.uncaptured(),
+                                  metadata={'test_name': 't', 'config': {'k': 1}})
+
+  def apply_hdr(rec, f, v, old):
+    if f == 'dut_id':
+      rec.dut_id = DUT[v]
+    elif f == 'outcome':
+      rec.outcome = OC[v]
+    elif f == 'end_time_millis':
+      rec.end_time_millis = END[v]
+    elif f == 'marginal':
+      rec.marginal = MARG[v]
+    elif f == 'details':
+      rec.add_outcome_details('code%d' % v, 'description %d' % v)
+    else:
+      rec.metadata['extra%d' % v] = [v, {'deep': (v, v)}]
+  for (h,) in hists:
+    n += 1
+    rec = fresh()
+    log = []         # what was applied, to rebuild from scratch
+    k = 0
+    for op in h:
+      if op[0] == 'add':
+        k += 1
+        it = item(op[1], k)
+        getattr(rec, ADD[op[1]])(it)
+        log.append(('add', op[1], it))
+      elif op[0] == 'set':
+        apply_hdr(rec, op[1], op[2], None)
+        log.append(('set', op[1], op[2]))
+      else:
+        got = _norm(rec.as_base_types())
+        ref = fresh()
+        for e in log:
+          if e[0] == 'add':
+            getattr(ref, ADD[e[1]])(e[2])
+          else:
+            apply_hdr(ref, e[1], e[2], None)
+        want = _norm(ref.as_base_types())
+        if got != want:
+          diff = sorted(f for f in set(got) | set(want) if got.get(f) != want.get(f))
+          if len(bad) < 6:
+            bad.append(('record view: a read of the record differs from the from-scratch rendering in %s' % ', '.join(diff),
+                        dict(history=[list(map(str, o[:3])) if o[0] != 'read' else ['read'] for o in h])))
+        # the model's header
+        hm = op[2]
+        if got.get('dut_id') != DUT[hm['dut_id']] or got.get('end_time_millis') != END[hm['end_time_millis']] or \
+            got.get('marginal') != MARG[hm['marginal']] or len(got.get('outcome_details', [])) != hm['details']:
+          if len(bad) < 6:
+            bad.append(('record view: header fields of a read differ from the model', dict(history=str(h)[:400])))
+        for l in LISTS:
+          if l in op[1] and len(got.get(l, [])) != len(op[1][l]):
+            if len(bad) < 6:
+              bad.append(('record view: list %s of a read has another length than the model says' % l, dict(history=str(h)[:400])))
+  return n, bad
+
+
 def main(chk):
   # design checks
   res = tlc.must_pass(tlc.run('RecordView', 'RecordView_mc.cfg', coverage=True), 'RecordView design check')
@@ -280,6 +376,20 @@ def main(chk):
         for b in r['bad']:
           for cat, msg in b['mismatches']:
             chk.violation('%s: %s' % (cat, msg), b)
+    # D
+    rv_cfg = open('specs/RecordView_mc.cfg').read()
+    if chk.tier != 'quick':
+      rv_cfg = rv_cfg.replace('MaxOps = 4', 'MaxOps = 5')
+      res = tlc.must_pass(tlc.run('RecordView', rv_cfg, workers=8, heap='6g'), 'RecordView histories')
+      chk.add_tlc('RecordView histories (thorough bound)', res)
+    nd = 0
+    for nn, bd in pool.map(part_d, tlaval.split_prints(res.out, 'HIST', 28)):
+      nd += nn
+      for sig, det in bd:
+        chk.violation(sig, det)
+    chk.traces += nd
+    chk.nontrivial += nd
+    chk.log('record histories (adds, header changes, reads): %d replayed' % nd)
     # C
     n, bad = pool.apply(part_c, (rows,))
   chk.traces += n
